@@ -166,11 +166,26 @@ CLAIMED = {
         note="pandas DatetimeIndex / searchsorted / np.unique / pandas.unique as contracts (validated against the libraries); grouped = "
              "per-group ungrouped on kernel level is C07's grouped-driver claim. Trusted: pysym, z3, contracts.",
         technique="symbolic execution of utils + accessor logic over index contracts, z3 LIA", ref="5 C09"),
+    "C12": dict(
+        text="Bounded symbolic verification of the part of the property that is Python source of the repository: the explicit pixel-loop "
+             "drivers (ws2doptvplc_tyx with its numba.prange, autocorr, autocorr_tyx, gammastd_yxt, mann_kendall_trend_yxt) are executed on "
+             "cubes of symbolic pixels (values, nodata, p symbolic; every gap pattern) with the per-pixel kernels uninterpreted: z3 decides "
+             "that each pixel's result equals the same driver's result on that pixel alone and the documented per-pixel composition, that "
+             "mirroring the pixel placement mirrors the results, that the prange loop run in reverse order builds the same results, and - from "
+             "the evaluator's per-iteration access log - that no buffer allocated before the parallel loop is written by one iteration and "
+             "touched by another (data-race freedom, hence independence of thread count and schedule). The real lazycompile wrapper is split "
+             "into its atomic reads/writes of the shared closure cell (locks, try/finally supported) and N threads are interleaved by a "
+             "symbolic schedule (z3 integer time stamps): over all schedules of 2..5 threads every call goes to a compiled function and "
+             "every activation reaches its call. Counterexamples are replayed on the compiled code (joint vs alone, 1 vs 16 threads, threads "
+             "racing through the real wrapper with a slow compile step).",
+        note="PARTIAL: dask graph construction/execution, schedulers, chunking, apply_ufunc, Numba's threading layer / compile lock / parfor "
+             "lowering are NOT Python source of the repository and are outside (a seeded dask layer-name change is missed); cubes 2x2 px x 4 "
+             "steps (thorough 3x1, 1x3, 5 steps). Trusted: pysym incl. its prange model, the schedule encoder, z3.",
+        technique="symbolic execution with uninterpreted per-pixel kernels + z3 UF/LRA (2-run locality, race obligations from access logs); "
+                  "symbolic-schedule bounded model checking of the lazycompile wrapper in z3 LIA", ref="5 C12"),
 }
 
 NOT_APPLICABLE = {
-    "C12": "Laziness/chunking/scheduler/thread-count/compile-race behaviour lives in dask, xarray.apply_ufunc, Numba's threading "
-           "layer and the compile lock - not Python source that can be executed symbolically; a hand model would verify the model.",
     "C13": "Compares Numba/LLVM machine code (incl. cython_special pointers) with the interpreter; translating that IR "
            "(floating point throughout) to SMT is out of reach with the installed tools.",
 }
